@@ -202,14 +202,13 @@ def shareOrConvert (p : Pool) (same : Bool) (esz : Nat) (ptrs : List Ptr) (sizes
   else .ok (allocAll p esz true (ptrs.zip sizes))
 
 /-- `Container::assign` (= `convert` between equal kinds): shares the arrays whose type agrees, allocates and
-    converts the others.  `sameObj`: `x.convert(x)` — the source is read after the target was emptied. -/
+    converts the others.  `sameObj`: `x.convert(x)` returns immediately (checked before anything else). -/
 def Cont.assign (p : Pool) (self other : Cont) (sameObj : Bool) : Except Abort (Pool × Cont) :=
-  if other.foreign then .error .abort
+  if sameObj then .ok (p, self)
+  else if other.foreign then .error .abort
   else match self.releaseOwn p with
     | .error e => .error e
     | .ok p0 =>
-      if sameObj then .ok (p0, Cont.empty self.kind self.dt self.it [])
-      else
         match shareOrConvert p0 (self.dt = other.dt) (esz self.dt) other.elems other.elemsSize with
         | .error e => .error e
         | .ok (p1, es) =>
@@ -232,6 +231,61 @@ def Cont.cloneCross (p : Pool) (self other : Cont) (mode : Nat) : Except Abort (
       match t1.releaseOwn p2 with
       | .error e => .error e
       | .ok p3 => .ok (p3, s)
+
+/-- `DenseVectorBlocked::convert(const DenseVector&)` (source kind 0) and `DenseVector::convert(const
+    DenseVectorBlocked&)` (source kind 1): the target is cleared, then shares the source's data array; an odd-sized
+    dense vector cannot be blocked (assertion, checked first); an empty source owns no array -/
+def Cont.xconvFrom (p : Pool) (self other : Cont) : Except Abort (Pool × Cont) :=
+  if other.kind = 0 && other.size % 2 != 0 then .error .abort
+  else match self.releaseOwn p with
+    | .error e => .error e
+    | .ok p0 =>
+      let n := if other.kind = 0 then other.size / 2 else other.size * 2
+      let len := if other.kind = 0 then other.size / 2 * 2 else other.size * 2
+      match other.elems with
+      | [] => .ok (p0, Cont.empty (1 - other.kind) other.dt other.it [n])
+      | q :: _ =>
+        match incr p0 q with
+        | .error e => .error e
+        | .ok p1 =>
+          .ok (p1, { Cont.empty (1 - other.kind) other.dt other.it [n] with elems := [q], elemsSize := [len] })
+
+/-- size of the data array a matrix built from a layout allocates -/
+def layoutElems (kind : Nat) (sidx : List Nat) : Option Nat :=
+  if kind = 2 then sidx[3]?
+  else if kind = 3 then (sidx[3]?).map (· * 4)
+  else match sidx[1]?, sidx[4]? with
+    | some r, some k => some (r * k)
+    | _, _ => none
+
+/-- what precedes the sharing in `M(layout)` / `m = layout`: the constructor reads `layout._scalar_index.at(0)`
+    (throws for the layout of a moved-from matrix); the assignment releases all arrays of the live target -/
+def layoutPre (p : Pool) (old : Option Cont) (L : Layout) : Except Abort Pool :=
+  match old with
+  | none => if L.sidx = [] then .error .exc else .ok p
+  | some ca => releaseAll p (ca.elems ++ ca.inds)
+
+/-- `SparseMatrix*(const SparseLayout&)` and `operator=(const SparseLayout&)`: index arrays shared with the layout,
+    a new data array of the size the scalars prescribe (filled by the harness with `fill, fill+1, …`) -/
+def Cont.fromLayout (p : Pool) (old : Option Cont) (k d : Nat) (L : Layout) (fill : Int) : Except Abort (Pool × Cont) :=
+  match layoutPre p old L with
+  | .error e => .error e
+  | .ok p0 =>
+    match incrAll p0 L.inds with
+    | .error e => .error e
+    | .ok p1 =>
+      match layoutElems k L.sidx with
+      | none => .error .exc
+      | some ne =>
+        .ok ((alloc p1 ne (esz d) (iota fill ne)).1,
+             { Cont.empty k d L.it L.sidx with elems := [(alloc p1 ne (esz d) (iota fill ne)).2], elemsSize := [ne],
+                                               inds := L.inds, indsSize := L.indsSize })
+
+/-- a live target of `m = layout` must have the layout's index type (and matrices are never range views) -/
+def mlayBad (old : Option Cont) (L : Layout) : Bool :=
+  match old with
+  | some ca => ca.it != L.it || ca.foreign
+  | none => false
 
 /-- the state a moved-from container is left in (`_foreign_memory` is not reset) -/
 def Cont.movedFrom (c : Cont) : Cont :=
@@ -292,14 +346,6 @@ def bandUsed (r noff : Nat) : Nat :=
     let off := r - 1 + j
     let x := r + r - off - 1
     r + min r x - max x r)).foldl (· + ·) 0
-
-/-- size of the data array a matrix built from a layout allocates -/
-def layoutElems (kind : Nat) (sidx : List Nat) : Option Nat :=
-  if kind = 2 then sidx[3]?
-  else if kind = 3 then (sidx[3]?).map (· * 4)
-  else match sidx[1]?, sidx[4]? with
-    | some r, some k => some (r * k)
-    | _, _ => none
 
 def elemPtr0 (c : Cont) : Ptr := c.elems.headD .null
 
@@ -407,9 +453,8 @@ def step (s : State) (op : Op) : Except Abort State :=
     | some cb =>
       if a ≥ s.slots.length then .error .badop
       else
-        let ca := match s.slot a with
-          | none => Cont.empty cb.kind dt it (defaultSidx cb.kind)
-          | some ca => ca
+        -- a fresh target is the default-constructed container of the requested types
+        let ca := (s.slot a).getD (Cont.empty cb.kind dt it (defaultSidx cb.kind))
         if ca.kind != cb.kind then .error .badop
         else match Cont.assign s.pool ca cb (a = b) with
           | .error e => .error e
@@ -420,24 +465,11 @@ def step (s : State) (op : Op) : Except Abort State :=
     | some cb =>
       if a ≥ s.slots.length || cb.kind > 1 then .error .badop
       else
-        let ka := 1 - cb.kind
-        let ca := match s.slot a with
-          | none => Cont.empty ka cb.dt cb.it [0]
-          | some ca => ca
-        if ca.kind != ka || ca.dt != cb.dt || ca.it != cb.it then .error .badop
-        else if cb.kind = 0 && cb.size % 2 != 0 then .error .abort
-        else match ca.releaseOwn s.pool with
+        let ca := (s.slot a).getD (Cont.empty (1 - cb.kind) cb.dt cb.it [0])
+        if ca.kind != 1 - cb.kind || ca.dt != cb.dt || ca.it != cb.it then .error .badop
+        else match Cont.xconvFrom s.pool ca cb with
           | .error e => .error e
-          | .ok p0 =>
-            match cb.elems with
-            | [] => .error .exc
-            | q :: _ =>
-              match incr p0 q with
-              | .error e => .error e
-              | .ok p1 =>
-                let (n, len) := if cb.kind = 0 then (cb.size / 2, cb.size / 2 * 2) else (cb.size * 2, cb.size * 2)
-                .ok ({ s with pool := p1 }.setSlot a
-                  (some { Cont.empty ka cb.dt cb.it [n] with elems := [q], elemsSize := [len] }))
+          | .ok (p1, c1) => .ok ({ s with pool := p1 }.setSlot a (some c1))
   | .move a b =>
     match s.slot b with
     | none => .error .badop
@@ -501,31 +533,14 @@ def step (s : State) (op : Op) : Except Abort State :=
     | some L =>
       if a ≥ s.slots.length then .error .badop
       else
-        let (fresh, k, d) := match s.slot a with
-          | none => (true, kind, dt)
-          | some ca => (false, ca.kind, ca.dt)
+        -- a live target keeps its kind and data type (`m = layout`), a fresh one is built as requested (`M(layout)`)
+        let k := ((s.slot a).map (·.kind)).getD kind
+        let d := ((s.slot a).map (·.dt)).getD dt
         if k < 2 || k > 4 || ((k = 4) != (L.lk = 1)) then .error .badop
-        else if (match s.slot a with | some ca => ca.it != L.it || ca.foreign | none => false) then .error .badop
-        else
-          -- fresh: Container(layout._scalar_index.at(0)) may throw; live: release everything first
-          let r0 : Except Abort Pool :=
-            match s.slot a with
-            | none => if L.sidx = [] then .error .exc else .ok s.pool
-            | some ca => releaseAll s.pool (ca.elems ++ ca.inds)
-          match r0 with
+        else if mlayBad (s.slot a) L then .error .badop
+        else match Cont.fromLayout s.pool (s.slot a) k d L fill with
           | .error e => .error e
-          | .ok p0 =>
-            match incrAll p0 L.inds with
-            | .error e => .error e
-            | .ok p1 =>
-              match layoutElems k L.sidx with
-              | none => .error .exc
-              | some ne =>
-                let (p2, q) := alloc p1 ne (esz d) (iota fill ne)
-                let _ := fresh
-                .ok ({ s with pool := p2 }.setSlot a
-                  (some { Cont.empty k d L.it L.sidx with elems := [q], elemsSize := [ne], inds := L.inds,
-                                                          indsSize := L.indsSize }))
+          | .ok (p1, c1) => .ok ({ s with pool := p1 }.setSlot a (some c1))
   | .ldrop l =>
     match s.lay l with
     | none => .error .badop
